@@ -61,10 +61,12 @@ def to_text(p):
             out.append(f"map {name} {src}[{fmt_val(sel[1])}]\n")
         else:
             _, a, b, c = sel
+            ta = "" if a is None else fmt_val(a)       # an omitted bound is written as nothing:  q[:2]  q[1:]  q[:]
+            tb = "" if b is None else fmt_val(b)
             if c is None:
-                out.append(f"map {name} {src}[{fmt_val(a)}:{fmt_val(b)}]\n")
+                out.append(f"map {name} {src}[{ta}:{tb}]\n")
             else:
-                out.append(f"map {name} {src}[{fmt_val(a)}:{fmt_val(b)}:{fmt_val(c)}]\n")
+                out.append(f"map {name} {src}[{ta}:{tb}:{fmt_val(c)}]\n")
     for name, params, block in p["macros"]:
         out.append(f"macro {name} {' '.join(params)} " + stmt_text(block, 0))
     for s in p["body"]:
@@ -413,7 +415,7 @@ class Gen:
                 src = r.choice([x for x, v in self.regs.items() if isinstance(v, list) and len(v) >= 1])
                 base = self.regs[src]
                 kind = r.choice(["whole", "slice", "slice", "idx"])
-                name = f"a{k}"
+                name = f"z{k}" if k == 0 else f"a{k}"      # a later alias may sort BEFORE the alias it is derived from
                 if kind == "whole":
                     p["maps"].append((name, src, None))
                     self.regs[name] = base
@@ -442,6 +444,10 @@ class Gen:
                             if lets_now.get(nm) == b:
                                 sb = nm
                                 break
+                    if a == 0 and sa == 0 and r.random() < 0.4:
+                        sa = None                  # start left out
+                    if b == len(base) and sb == b and r.random() < 0.3:
+                        sb = None                  # stop left out
                     p["maps"].append((name, src, ("slice", sa, sb, sc)))
                     self.regs[name] = base[a:b:c]
         self.lets = dict(p["lets"])
@@ -509,7 +515,7 @@ class Gen:
 
     def num_arg(self, params):
         r = self.r
-        c = [("num", 0.25), ("num", 1.5), ("num", 2)]
+        c = [("num", 0.25), ("num", 1.5), ("num", 2), ("num", 0.1 + 0.2), ("num", 1.5707963267948966)]     # incl. floats that need 17 digits
         if self.o["use_lets"]:
             c.append(("id", "ang"))
         if "t" in params:
